@@ -691,3 +691,30 @@ def reference_update(solver: str, stage2_time=None):
     t2 = stage2_time if stage2_time is not None else TAU
     k2 = F(t2, Y + DT * k1)
     return sp.simplify(sp.expand(Y + DT / 2 * (k1 + k2)))
+
+
+
+def cadence_defects(s, rid):
+    """Names of the sample-then-step facts a solver summary fails (loop form: counter-modulo-stride guarded store before the update,
+    cursor advanced once per store, stride round(dts/dt), round(T/dt) steps; scan form: the outer block emits its start state, runs
+    the inner scan from the block's carry, hands the inner scan's end carry - time counter AND state - to the next block, starts
+    from (t0, y), the inner carry's time advances by one per step, stride round(dts/dt))."""
+    st = s.store
+    if s.form == "loop":
+        need = ["test_is_counter_mod_stride_eq_0", "stored_value_is_state", "inc_ok", "store_before_inc", "store_before_update"]
+        if st.get("n_store_ifs") != 1 or st.get("stores_in_branch") != 1:
+            raise AnalysisError(f"{rid}: {s.f.qual}: record store has an unrecognised form ({ {k: v for k, v in st.items() if k != 'node'} })")
+        bad = [k for k in need if not st.get(k)]
+        if st.get("cursor_written_elsewhere_in_loop"):
+            bad.append("cursor_written_elsewhere_in_loop")
+        if st.get("stride_expr") != "round(dts/dt)":
+            bad.append(f"stride_expr={st.get('stride_expr')}")
+        if st.get("steps_expr") != "round(T/dt)":
+            bad.append(f"steps_expr={st.get('steps_expr')}")
+    else:
+        need = ["emits_start_state", "inner_starts_from_block_start", "outer_carry_is_inner_end", "init_time_is_t0",
+                "init_state_is_y", "time_carry_advances_by_one"]
+        bad = [k for k in need if not st.get(k)]
+        if st.get("stride_expr") != "round(dts/dt)":
+            bad.append(f"stride_expr={st.get('stride_expr')}")
+    return bad
